@@ -39,6 +39,7 @@ def run(fx, rep, tier):
     rule_stopflag(fx, rep, ex, arms)
     rule_limit(fx, rep)
     rule_panic(fx, rep, ex)
+    rule_panic_root(fx, rep)
     rule_latch(fx, rep)
     rule_goargs(fx, rep)
 
@@ -177,6 +178,28 @@ def rule_latch(fx, rep):
 
 
 # ---- C05-PANIC -----------------------------------------------------------------------------
+
+
+def rule_panic_root(fx, rep):
+    """C05-PANIC/root. One site of the search thread's cone is discharged by a belief rather than by arithmetic: the line of a
+    completed iteration is non-empty, so `pv.first().unwrap()` cannot fail. The belief rests on the root node never returning
+    before it has searched a move (C08-ROOTRET / C04-ROOT), re-reported here: a draw test that no longer exempts the root makes
+    that unwrap panic on the search thread while it holds the state mutex - no bestmove, the latch never set, `stop` waits forever."""
+    import core
+    import pC08
+    sub = type(rep)(rep.prop, rep.tier)
+    q = core.QUIET
+    core.QUIET = True
+    try:
+        pC08.rule_rootret(fx, sub, fx.one("search::negamax::negamax"))
+    finally:
+        core.QUIET = q
+    for v in sub.violations:
+        rep.violation("C05-PANIC", v["key"].replace("C08-ROOTRET", "C05-PANIC/root"), v["msg"] + " - the search thread then panics on the empty line while holding the state mutex: the go is never answered and stop / ucinewgame block", v["site"])
+    rep.obligations += sub.obligations
+    rep.discharged += sub.discharged
+    r = sub.rules[-1]
+    rep.rule("C05-PANIC/root", r["instances"], r["floor"], r["status"] == "ok", "the root node never returns before searching a move (shared with C08-ROOTRET)")
 
 
 def rule_panic(fx, rep, ex):
@@ -535,6 +558,16 @@ def stop_ignored(fx):
         # the throttle: the deciding (last) condition compares the node-count parameter
         others = [(c, v) for c, v in conds if not _mentions_other_param(c)]
         if conds and _mentions_other_param(conds[-1][0]) and not others:
+            # ... by an order comparison: it releases by itself because the node counter only grows. An (in)equality test
+            # `count != due` never releases once the count has stepped over the due value (counted nodes that return before
+            # polling), and from then on no poll looks at the flag or the clock
+            co = cmp_op(deep_strip(conds[-1][0])) if isinstance(deep_strip(conds[-1][0]), tuple) else None
+            if co and co[0] in ("Eq", "Ne"):
+                key = "poll/throttle-exact"
+                if key not in seen:
+                    seen.add(key)
+                    out.append((key, f"should_stop answers `false` whenever `{show(conds[-1][0])[:80]}` - an exact match on the node count instead of an order comparison: once the count "
+                                "has stepped over the due value the throttle never releases again", {"fn": b.name, "file": b.file, "line": b.line}))
             continue
         if not conds:
             key, what = "poll/unconditional", "should_stop answers `false` unconditionally"
@@ -1022,6 +1055,8 @@ def rule_noblock(fx, rep, ex, arms, names=("IsReady", "Quit", "Position", "Debug
 
 U = "src/engine/uci/mod.rs"
 MUTANTS = [
+    {"name": "the root is no longer exempt from the fifty-move / dead-material return (seed C05-11a)", "expect": "C05-PANIC/root",
+     "edits": __import__("shared_mutants").edits_from_patch("seeded/C05-11a/patch.diff")},
     {"name": "LockLatch::wait by wait_while with the predicate inverted (seed C05-8a)", "expect": "C05-LATCH/polarity",
      "edits": [("src/engine/util/sync.rs", "        let mut guard = self.m.lock().unwrap();\n        while !*guard {\n            guard = self.v.wait(guard).unwrap();\n        }", "        let guard = self.m.lock().unwrap();\n        let _guard = self.v.wait_while(guard, |set| *set).unwrap();")]},
     {"name": "LockLatch::wait by wait_while", "benign": True,
